@@ -263,15 +263,21 @@ func Exec(line string) hx.Result {
 	obs := "wf=" + wfString(d) + " " + dec + " reenc=" + reenc + " ## dump=" + clip(dumpString(d2)) + " bytes=" + clip(hex.EncodeToString(b))
 
 	// statistics
-	pre := map[string]bool{"": true}
+	// number of distinct prefixes of the (sorted) words: 1 + sum of len(w) - lcp(w, previous word)
+	npre := 1
 	properPrefix := false
 	for i, w := range c.tokens {
-		for k := 1; k <= len(w); k++ {
-			pre[string(w[:k])] = true
+		l := 0
+		if i > 0 {
+			p := c.tokens[i-1]
+			for l < len(p) && l < len(w) && p[l] == w[l] {
+				l++
+			}
+			if l == len(p) {
+				properPrefix = true
+			}
 		}
-		if i > 0 && bytes.HasPrefix(w, c.tokens[i-1]) {
-			properPrefix = true
-		}
+		npre += len(w) - l
 	}
 	dump := d.VerifDump()
 	maxBranch, maxID := 0, uint64(0)
@@ -283,7 +289,7 @@ func Exec(line string) hx.Result {
 			maxID = n.ID
 		}
 	}
-	return hx.Result{Obs: obs, Nontrivial: len(dump) < len(pre) || properPrefix, Viol: viol,
+	return hx.Result{Obs: obs, Nontrivial: len(dump) < npre || properPrefix, Viol: viol,
 		Buckets: []string{"words:" + cross(len(c.tokens)), "nodes:" + cross(len(dump)), "branch:" + cross(maxBranch), "maxid:" + cross(int(maxID))}}
 }
 
@@ -506,8 +512,13 @@ func chain(r *hx.Rng, n int, prefixes bool) [][]byte {
 	}
 	ws := [][]byte{w}
 	if prefixes {
+		// about a third of the prefixes, at most about 60 of them (the case line grows with n^2)
+		den := 3
+		if n > 180 {
+			den = n / 60
+		}
 		for k := 0; k < n; k++ {
-			if r.Chance(1, 3) {
+			if r.Chance(1, den) {
 				ws = append(ws, cat(w[:k]))
 			}
 		}
